@@ -6,7 +6,7 @@ from specs.inv import *
 from specs.retry import *
 from specs.acks import *
 
-KEEP_PURGE = KEEP0 + ['g_base', 'g_firing', 'id', 'deferred', 'msgId', 'retries', 'qos', 'topic', 'retain', 'payload', 'encoded', 'dup',
+KEEP_PURGE = KEEP0 + ['g_base', 'g_addr', 'g_firing', 'id', 'deferred', 'msgId', 'retries', 'qos', 'topic', 'retain', 'payload', 'encoded', 'dup',
                       'alarm', 'interval', 't_status', 't_fn', 't_arg', 't_owner', 't_delay', 'q_pos', 'initial', 'factor',
                       'bandwith', 'maxDelay', '_value', '_k', 'd_owner', 'tr_out', 'tr_aborts', 'tr_closes', '$dq', '$dqh', '$dqt']
 
